@@ -22,6 +22,7 @@ import (
 	"sync/atomic"
 	"time"
 
+	pkgerrors "github.com/pkg/errors"
 	"github.com/yandex/pandora/core"
 	"github.com/yandex/pandora/core/engine"
 	"github.com/yandex/pandora/core/schedule"
@@ -40,7 +41,7 @@ type prPool struct {
 	Provider, Aggregator, Warm   string
 	GunFail, BindFail, SchedFail int
 	PanicInst, PanicShot         int
-	Fault, Shape                 string
+	Fault, Shape, Ek             string
 }
 
 type prPlan struct {
@@ -76,8 +77,6 @@ func prClass(err error) string {
 	switch {
 	case err == nil:
 		return "nil"
-	case errors.Is(err, context.Canceled) || errors.Is(err, context.DeadlineExceeded):
-		return "ctx"
 	case errors.Is(err, prErrProv):
 		return "prov"
 	case errors.Is(err, prErrAgg):
@@ -98,7 +97,52 @@ func prClass(err error) string {
 			return "ooa"
 		}
 	}
+	// the VALUE of the cause, which is all the engine can look at: the sentinels of package context
+	switch {
+	case errors.Is(err, context.DeadlineExceeded):
+		return "deadline"
+	case errors.Is(err, context.Canceled):
+		return "ctx"
+	}
 	return "other:" + err.Error()
+}
+
+// prRetClass projects what Run / instancePool.Run returned: nil, the bare ctx.Err() of their own select
+// ("ctx"), or an error ("err") whose cause class goes into c.
+func prRetClass(err error) (cls, c string) {
+	switch {
+	case err == nil:
+		return "nil", ""
+	case err == context.Canceled:
+		return "ctx", ""
+	}
+	return "err", prClass(err)
+}
+
+// errVal renders the error VALUE of the plan's failing component (plan field ek, see "error values" in
+// PoolRun.tla): the plain sentinel, a wrapped sentinel, the DeadlineExceeded / Canceled of a context of the
+// component's OWN (always under a pkg/errors message, so that its Cause is the context sentinel), or the error
+// of the context the component was given (the run ctx) returned late.
+func (pl prPool) errVal(sentinel error, given context.Context) error {
+	switch pl.Ek {
+	case "wrapped":
+		return fmt.Errorf("mock layer: %w", pkgerrors.WithMessage(sentinel, "mock inner layer"))
+	case "deadline":
+		own, cancel := context.WithDeadline(context.Background(), time.Now().Add(-time.Second))
+		defer cancel()
+		<-own.Done()
+		return pkgerrors.WithMessage(own.Err(), "mock component: own deadline")
+	case "canceled":
+		own, cancel := context.WithCancel(context.Background())
+		cancel()
+		return pkgerrors.WithMessage(own.Err(), "mock component: own context")
+	case "runctx":
+		if given != nil && given.Err() != nil {
+			return given.Err()
+		}
+		panic("poolrun: plan asks for the run context's error before the run context is done")
+	}
+	return sentinel
 }
 
 // ---------------------------------------------------------------------------------------------
@@ -189,19 +233,19 @@ func (m *prProvider) Run(ctx context.Context, _ core.ProviderDeps) error {
 		case m.q <- i:
 		case <-ctx.Done():
 			if m.pl.Provider == "end" {
-				return end(prErrProv, true)
+				return end(m.pl.errVal(prErrProv, ctx), true)
 			}
 			return end(ctx.Err(), true)
 		}
 	}
 	switch m.pl.Provider {
 	case "fail":
-		return end(prErrProv, true)
+		return end(m.pl.errVal(prErrProv, ctx), true)
 	case "end":
 		close(m.q) // out of ammo, but the provider's Run keeps going and fails when it is cancelled
 		<-ctx.Done()
 		m.r.jit()
-		return end(prErrProv, false)
+		return end(m.pl.errVal(prErrProv, ctx), false)
 	}
 	return end(nil, true)
 }
@@ -228,12 +272,12 @@ func (m *prAggregator) Run(ctx context.Context, _ core.AggregatorDeps) error {
 	m.r.jit()
 	var err error
 	if m.pl.Aggregator == "now" {
-		err = prErrAgg
+		err = m.pl.errVal(prErrAgg, ctx)
 	} else {
 		<-ctx.Done()
 		m.r.jit()
 		if m.pl.Aggregator == "drop" {
-			err = prErrAgg
+			err = m.pl.errVal(prErrAgg, ctx)
 		}
 	}
 	m.r.emit(prEv{Ev: "AggRunEnd", P: m.p, Cls: prClass(err)})
@@ -257,7 +301,7 @@ func (g *prGun) Bind(_ core.Aggregator, deps core.GunDeps) error {
 	g.r.jit()
 	if g.pl.BindFail == g.inst {
 		g.r.emit(prEv{Ev: "Bind", P: g.p, N: g.inst, Cls: "bind"})
-		return prErrBind
+		return g.pl.errVal(prErrBind, nil)
 	}
 	g.r.emit(prEv{Ev: "Bind", P: g.p, N: g.inst, Cls: "ok"})
 	return nil
@@ -270,6 +314,9 @@ func (g *prGun) Shoot(core.Ammo) {
 	boom := g.pl.PanicInst == g.inst && g.pl.PanicShot == g.shots
 	g.r.emit(prEv{Ev: "Shoot", P: g.p, N: g.inst, Flag: boom})
 	if boom {
+		if g.pl.Ek != "plain" && g.pl.Ek != "" {
+			panic(g.pl.errVal(errors.New("mock shot panics"), nil)) // the panic VALUE is an error of that kind
+		}
 		panic("mock shot panics")
 	}
 }
@@ -283,7 +330,7 @@ func (g *prGun) doWarmUp(*warmup.Options) (interface{}, error) {
 	g.r.jit()
 	if g.pl.Warm == "fail" {
 		g.r.emit(prEv{Ev: "WarmUp", P: g.p, Cls: "warmup"})
-		return nil, prErrWarm
+		return nil, g.pl.errVal(prErrWarm, nil)
 	}
 	g.r.emit(prEv{Ev: "WarmUp", P: g.p, Cls: "ok"})
 	return "shared-deps", nil
@@ -315,7 +362,7 @@ func (f *prFactory) NewGun() (core.Gun, error) {
 	f.r.jit()
 	if n == f.pl.GunFail {
 		f.r.emit(prEv{Ev: "NewGunFail", P: f.p, N: n, Cls: "newgun"})
-		return nil, prErrGun
+		return nil, f.pl.errVal(prErrGun, nil)
 	}
 	f.r.emit(prEv{Ev: "NewGunOk", P: f.p, N: n, Cls: "ok"})
 	g := &prGun{r: f.r, p: f.p, pl: f.pl, inst: -1}
@@ -339,7 +386,7 @@ func (f *prFactory) NewSched() (core.Schedule, error) {
 	f.r.jit()
 	if n == f.pl.SchedFail {
 		f.r.emit(prEv{Ev: "NewSchedFail", P: f.p, N: n, Cls: "sched"})
-		return nil, prErrSched
+		return nil, f.pl.errVal(prErrSched, nil)
 	}
 	f.r.emit(prEv{Ev: "NewSchedOk", P: f.p, N: n, Cls: "ok"})
 	return schedule.NewOnce(int64(f.pl.T)), nil
@@ -368,6 +415,9 @@ func prSink(pool string, seq int64, ev string, n int, err error) {
 	e := prEv{Ev: ev, P: p, N: n, Cls: prClass(err), Seq: int(seq)}
 	if ev == "EngineReturn" {
 		e.P, e.Cls = 0, ""
+	}
+	if ev == "PoolReturn" {
+		e.Cls, e.C = prRetClass(err)
 	}
 	r.emit(e)
 }
@@ -433,16 +483,15 @@ func prRunOne(w *vt.Writer, id int, plan prPlan, seed int64, cancelAt int, watch
 	runDone := make(chan struct{})
 	go func() {
 		err := eng.Run(ctx)
-		e := prEv{Ev: "RunReturn", Cls: prClass(err)}
+		e := prEv{Ev: "RunReturn"}
+		e.Cls, e.C = prRetClass(err)
 		r.mu.Lock()
 		if r.cancelled {
 			e.Flag = true
 			e.Ms = int(time.Since(r.cancelT) / time.Millisecond)
 		}
 		r.mu.Unlock()
-		if err != nil && e.Cls != "ctx" {
-			e.C = e.Cls
-			e.Cls = "err"
+		if e.Cls == "err" {
 			if m := prPoolRe.FindStringSubmatch(err.Error()); m != nil && strings.Contains(err.Error(), "pool run failed") {
 				e.P, _ = strconv.Atoi(m[2])
 			}
@@ -490,7 +539,7 @@ func prDecodePlans(path string) []prPlan {
 				Provider: vt.Str(pm["provider"]), Aggregator: vt.Str(pm["aggregator"]), Warm: vt.Str(pm["warm"]),
 				GunFail: vt.Int(pm["gunFail"]), BindFail: vt.Int(pm["bindFail"]), SchedFail: vt.Int(pm["schedFail"]),
 				PanicInst: vt.Int(pm["panicInst"]), PanicShot: vt.Int(pm["panicShot"]),
-				Fault: vt.Str(pm["fault"]), Shape: vt.Str(pm["shape"]),
+				Fault: vt.Str(pm["fault"]), Shape: vt.Str(pm["shape"]), Ek: vt.Str(pm["ek"]),
 			})
 		}
 		out = append(out, pl)
